@@ -41,6 +41,12 @@ def run_spec(spec: dict) -> list[dict]:
             tree.run()
             for _ in range(int(drive[1])):
                 tree.run_step()
+        elif drive[0] == "rerun":            # run() returned; the caller raises the limit of the global condition and calls run() again
+            tree.run()
+            inner = getattr(tree._gsc, "inner", tree._gsc)
+            inner.limit = inner.limit + int(drive[1])
+            rec.emit({"e": "retarget", "n": int(inner.limit), "snap": rec.snap(tree, full=True)})
+            tree.run()
         else:
             raise ValueError(drive)
         rec.emit({"e": "end", "snap": rec.snap(tree, full=True)})
